@@ -17,6 +17,7 @@ import (
 	"runtime"
 	"sort"
 	"sync"
+	"syscall"
 	"sync/atomic"
 	"time"
 
@@ -38,6 +39,23 @@ type idErr struct {
 }
 
 func (e *idErr) Error() string { return fmt.Sprintf("%s:%d", e.kind, e.id) }
+
+// a failed probe may be a failure of the timeout class (a net.Error with Timeout(), a wrapped deadline error, a
+// temporary errno): it is still ONE failed probe of ONE target
+func (e *idErr) Timeout() bool   { return e.kind == "scan" && e.id%4 == 3 }
+func (e *idErr) Temporary() bool { return e.Timeout() }
+func (e *idErr) Unwrap() error {
+	if e.kind != "scan" {
+		return nil
+	}
+	switch e.id % 4 {
+	case 1:
+		return context.DeadlineExceeded
+	case 2:
+		return syscall.ECONNREFUSED
+	}
+	return nil
+}
 
 type result struct{ id int }
 
@@ -466,7 +484,12 @@ func main() {
 	only := flag.Int("only", -1, "run only the case with this index (same seed, same script)")
 	wired := flag.Bool("wired", false, "run the engines the socks/docker/elastic commands build (option parsing + newScanEngine) for --rate / --workers settings incl. rates below 1/s")
 	e2e := flag.String("e2e", "", "path of the sx binary: run the real socks/elastic/docker commands against loopback services")
+	e2ec := flag.String("e2ecancel", "", "path of the sx binary: SIGINT while a probe of the real socks/elastic/docker command is in flight against a silent peer")
 	flag.Parse()
+	if *e2ec != "" {
+		runE2ECancel(*e2ec, *outp)
+		return
+	}
 	if *e2e != "" {
 		runE2E(*e2e, *outp)
 		return
